@@ -28,6 +28,10 @@ func (h *BCD2BytesHeader) Length() int {
 }
 
 func (h *BCD2BytesHeader) WriteTo(w io.Writer) (int, error) {
+	if h.Len < 0 || h.Len > 9999 {
+		return 0, fmt.Errorf("length %d cannot be encoded in 2 BCD bytes", h.Len)
+	}
+
 	strLen := fmt.Sprintf("%04d", h.Len)
 	res, err := encoding.BCD.Encode([]byte(strLen))
 	if err != nil {
